@@ -161,3 +161,15 @@ Theorem C09_merge_idempotent_n : forall s : Base.sigT, Algebra.valid_sig (Base.p
 Proof. exact @MergeIdemN.merge_idempotent_n. Qed.
 Print Assumptions C09_merge_idempotent_n.
 
+Theorem C09_merge_nested_same_params : forall (s : Base.sigT) (ss : list Base.sigT), Algebra.valid_sig (Base.params s) = true -> (forall p : Base.param, List.In p (Base.params s) -> MergeIdem.ann_wf p) -> List.Forall (fun x : Base.sigT => Base.params x = Base.params s) ss -> exists r : Base.sigT, Algebra.merge_nested (s :: ss) = Base.Ok r /\ Base.params r = Base.params s.
+Proof. exact @MergeIdemN.merge_nested_same_params. Qed.
+Print Assumptions C09_merge_nested_same_params.
+
+Theorem C09_merge_nested_flat_same_params : forall (s : Base.sigT) (ss : list Base.sigT), Algebra.valid_sig (Base.params s) = true -> (forall p : Base.param, List.In p (Base.params s) -> MergeIdem.ann_wf p) -> List.Forall (fun x : Base.sigT => Base.params x = Base.params s) ss -> exists r1 r2 : Base.sigT, Algebra.merge (s :: ss) = Base.Ok r1 /\ Algebra.merge_nested (s :: ss) = Base.Ok r2 /\ Base.params r1 = Base.params r2.
+Proof. exact @MergeIdemN.merge_nested_flat_same_params. Qed.
+Print Assumptions C09_merge_nested_flat_same_params.
+
+Theorem C09_merge_idempotent_needs_ann_wf : exists s : Base.sigT, Algebra.valid_sig (Base.params s) = true /\ match Algebra.merge (s :: s :: nil) with | Base.Ok r => Base.params r <> Base.params s | Base.Err _ => True end.
+Proof. exact @MergeIdemN.merge_idempotent_needs_ann_wf. Qed.
+Print Assumptions C09_merge_idempotent_needs_ann_wf.
+
